@@ -27,7 +27,8 @@ ASSUMPTIONS = [
 ]
 
 IC_TEXTS = ['5.0', '0.0', '-2.5', '10', '0', '0.125', '1e1', '3.', '2*3', 'sqrt(4.)', '1/4', '-(2.0)', '0.', '-0.0', '1 - 1',
-            '2*pi', 'e', '-pi/2', 'floor(7.5)', 'tau/4', 'exp(1.0)', 'max(1.0, 2.5)']
+            '2*pi', 'e', '-pi/2', 'floor(7.5)', 'tau/4', 'exp(1.0)', 'max(1.0, 2.5)', '86.48648648648649',
+            '0.30000000000000004', '1/3']
 # constant expressions may use everything the math library offers (functions AND constants)
 MATH_ITEMS = ['pi', 'e', '2*pi', 'sqrt(2.0)', 'exp(1.0)', '-tau', 'floor(2.5)', 'pi/2', '1.5', 'log(10.0)']
 BAD_TEXTS = ['undefined_name', '[1., 2.', 'foo(3)', '1/0', '[1.0, 2.0] + nothing']
@@ -58,7 +59,8 @@ def block_case(draw):
         if kind == 'keep':
             new_exo.append([name, text, 'str', values, 'ok'])
         elif kind in ('obj-list', 'obj-tuple'):
-            vals = [draw(st.integers(-300, 300)) / 10.0 for _ in range(T + 1 + draw(st.integers(0, 3)))]
+            div = draw(st.sampled_from([10.0, 7.0, 3.0]))      # (sevenths and thirds need all 17 significant digits)
+            vals = [draw(st.integers(-300, 300)) / div for _ in range(T + 1 + draw(st.integers(0, 3)))]
             new_exo.append([name, None, kind, vals, 'ok'])
         elif kind == 'scalar-text':
             v = draw(st.integers(-300, 300)) / 10.0
@@ -93,7 +95,8 @@ def block_case(draw):
             vals = [draw(st.integers(-30, 30)) for _ in range(T + 1 + draw(st.integers(0, 2)))]
             new_exo.append([name, repr(vals), 'str', vals, 'ok'])
         elif kind == 'long':
-            vals = [draw(st.integers(-300, 300)) / 10.0 for _ in range(T + 2 + draw(st.integers(0, 5)))]
+            div = draw(st.sampled_from([10.0, 7.0, 3.0]))
+            vals = [draw(st.integers(-300, 300)) / div for _ in range(T + 2 + draw(st.integers(0, 5)))]
             new_exo.append([name, repr(vals), 'str', vals, 'ok'])
         elif kind == 'short':
             n = draw(st.integers(0, T))
@@ -240,7 +243,10 @@ def model_case(draw):
     for sec, var in [('HH', 'F'), ('GOV', 'F'), ('HH', 'AfterTax'), ('HH', 'LAG_F'), ('BUS', 'PROF'), ('TF', 'TaxRate'),
                      ('HH', 'AlphaFin')]:
         if draw(gen.chance(1, 4)):
-            ics.append([sec, var, draw(st.sampled_from([5.0, 0.0, -2.5, 10, 0.125, '3.5', 80, 0]))])
+            ics.append([sec, var, draw(st.sampled_from([5.0, 0.0, -2.5, 10, 0.125, '3.5', 80, 0,
+                                                        # floats that need all 17 significant digits
+                                                        86.48648648648649, 0.3333333333333333, 14.285714285714286,
+                                                        0.30000000000000004, 123456789.12345679, -2.718281828459045]))])
     earlier = None
     if draw(gen.chance(1, 3)):
         earlier = [draw(st.integers(0, 400)) / 10.0 for _ in range(T + 1 + draw(st.integers(0, 2)))]
